@@ -83,6 +83,11 @@ pub fn legacy_name(instance: u64) -> String {
     // not injective on purpose: instance 7 gets the address of instance 0, 8 that of 1, … (a classic instantiation at
     // an occupied address must be refused)
     let instance = instance % 7;
+    if instance == 2 {
+        // an address the App's own Api REJECTS (LegacyApi refuses names starting with `bad`): the contract exists, can be
+        // looked at through the App's accessors and dumps, but no message or query can name it
+        return "badcontract2".to_string();
+    }
     if instance == 5 {
         // a very long address (namespace `contract_data/<addr>` of 256 bytes: the second length byte of the prefix matters)
         return format!("contract5{}", "x".repeat(233));
